@@ -21,6 +21,20 @@ func init() {
 	commands["c06node"] = func(seed uint64, n int, out, stats string, a []string) { runLedgerMon("C06", seed, n, out, stats) }
 }
 
+// withWaitlists: delegators that also sit on the waitlist of the same candidate with the same coin (what a kicked
+// stake followed by a new delegation leaves behind)
+func withWaitlists(spec *GenesisSpec, r *Rng) {
+	spec.Mutate = func(st *types.AppState) {
+		for ci := range st.Candidates {
+			for _, sk := range st.Candidates[ci].Stakes {
+				if r.Intn(2) == 0 {
+					st.Waitlist = append(st.Waitlist, types.Waitlist{CandidateID: st.Candidates[ci].ID, Owner: sk.Owner, Coin: sk.Coin, Value: pip(int64(10 + r.Intn(300))).String()})
+				}
+			}
+		}
+	}
+}
+
 func stdSpec(r *Rng) *GenesisSpec {
 	return &GenesisSpec{NAccounts: 6 + r.Intn(5), Balance: pip(100000000), NVals: 3 + r.Intn(3), ExtraCands: r.Intn(3)}
 }
@@ -43,19 +57,19 @@ func runLedgerMon(pid string, seed uint64, n int, out, stats string) {
 		r := NewRng(s)
 		spec := stdSpec(r)
 		g := &genOpts{Blocks: 20 + r.Intn(60), TxPerBlock: 6, Absences: true, Evidence: r.Intn(3) == 0, Malformed: true, Monitors: true, CheckDeliver: pid == "C06", CandAuth: pid == "C05"}
+		if (pid == "C01" || pid == "C02") && i%3 == 2 {
+			withWaitlists(spec, r)
+			g.Weights = map[string]int{}
+			for _, k := range kinds {
+				g.Weights[k] = 1
+			}
+			g.Weights["unbond"], g.Weights["move"], g.Weights["delegate"] = 40, 6, 8
+		}
 		if pid == "C03" {
 			g.FailFrame, g.Monitors, g.Absences, g.Evidence = true, false, false, false
 			g.Blocks, g.TxPerBlock = 60+r.Intn(120), 1
 			// delegators that also sit on the waitlist of the same candidate with the same coin
-			spec.Mutate = func(st *types.AppState) {
-				for ci := range st.Candidates {
-					for _, sk := range st.Candidates[ci].Stakes {
-						if r.Intn(2) == 0 {
-							st.Waitlist = append(st.Waitlist, types.Waitlist{CandidateID: st.Candidates[ci].ID, Owner: sk.Owner, Coin: sk.Coin, Value: pip(int64(10 + r.Intn(300))).String()})
-						}
-					}
-				}
-			}
+			withWaitlists(spec, r)
 			g.Weights = map[string]int{}
 			for _, k := range kinds {
 				g.Weights[k] = 1
@@ -130,7 +144,11 @@ func runLedgerMon(pid string, seed uint64, n int, out, stats string) {
 			mon = append(mon, f)
 		}
 		for _, p := range res.Panics {
-			mon = append(mon, MonitorFailure{What: "panic during history: " + p, Key: "c07-panic", Replay: fmt.Sprintf("history seed %d", s)})
+			key := "c07-panic"
+			if pid == "C02" && strings.Contains(p, "negative") {
+				key = "c02-negative-panic" // an amount went negative: the node refuses to encode it and stops
+			}
+			mon = append(mon, MonitorFailure{What: "panic during history: " + p, Key: key, Replay: fmt.Sprintf("history seed %d", s)})
 		}
 		if ok > 0 {
 			nontriv++
@@ -201,7 +219,7 @@ func conservationStep(n *Node, prev **Holdings, prevEm **big.Int, c01, c02 *[]Mo
 		dBase := new(big.Int).Sub(cur.baseTotal(), (*prev).baseTotal())
 		dEm := new(big.Int).Sub(em, *prevEm)
 		if dBase.Cmp(dEm) != 0 {
-			*c01 = append(*c01, MonitorFailure{What: fmt.Sprintf("C01: base coin total changed by %s but emission by %s at %s", dBase, dEm, at), Key: "c01-base", Replay: where})
+			*c01 = append(*c01, MonitorFailure{What: fmt.Sprintf("C01: base coin total changed by %s but emission by %s at %s", dBase, dEm, at), Key: baseDiffKey(*prev, cur, dBase, dEm), Replay: where})
 		}
 	}
 	*prev, *prevEm = cur, em
